@@ -541,6 +541,8 @@ type shadowMap struct {
 	coin bool
 }
 
+// gen keeps an approximate shadow of the world (who holds roughly what) so that most generated ops are
+// well-formed and funded; the shadow is only a generation heuristic, never an oracle.
 type gen struct {
 	r     *Rng
 	ops   []c06Op
@@ -548,25 +550,53 @@ type gen struct {
 	kinds []string // kind per token id ("minter" for module-deployed)
 	meta  map[int]bool
 	maps  []shadowMap
+	bank  map[denomRef]map[int]int64
+	erc   map[int]map[int]int64
 }
 
-func (g *gen) amount() string {
+func (g *gen) bbal(d denomRef, a int) int64 { return g.bank[d][a] }
+func (g *gen) ebal(t, a int) int64           { return g.erc[t][a] }
+func (g *gen) addB(d denomRef, a int, x int64) {
+	if g.bank[d] == nil {
+		g.bank[d] = map[int]int64{}
+	}
+	g.bank[d][a] += x
+}
+func (g *gen) addE(t, a int, x int64) {
+	if g.erc[t] == nil {
+		g.erc[t] = map[int]int64{}
+	}
+	g.erc[t][a] += x
+}
+
+// amount: mostly affordable for a holder with shadow balance bal
+func (g *gen) amount(bal int64) string {
 	r := g.r
-	switch r.Pick(60, 14, 8, 5, 6, 4, 3) {
+	hi := bal
+	if hi > 400 {
+		hi = 400
+	}
+	switch r.Pick(70, 6, 4, 8, 4, 4, 4) {
 	case 0:
-		return strconv.Itoa(r.Range(1, 60))
+		if hi >= 1 {
+			return strconv.Itoa(r.Range(1, int(hi)))
+		}
+		return strconv.Itoa(r.Range(1, 40))
 	case 1:
-		return strconv.Itoa(10 * r.Range(1, 40))
+		if bal >= 1 && bal < 1_000_000 {
+			return strconv.FormatInt(bal, 10) // everything
+		}
+		return strconv.Itoa(r.Range(1, 60))
 	case 2:
-		return strconv.Itoa(r.Range(61, 900))
-	case 3:
 		return "0"
+	case 3:
+		return strconv.FormatInt(bal+int64(r.Range(1, 3)), 10) // just above the balance
 	case 4:
-		return strconv.Itoa(r.Range(4000, 9000)) // above every coin balance
+		return strconv.Itoa(r.Range(4000, 9000))
 	case 5:
 		return "1000000000000000000000000000000"
 	default:
-		return "1"
+		return strconv.Itoa(10 * r.Range(1, 30))
 	}
 }
 
@@ -579,7 +609,7 @@ func (g *gen) fmtTo() string {
 
 func (g *gen) anyTo() int {
 	r := g.r
-	switch r.Pick(80, 6, 6, 8) {
+	switch r.Pick(74, 8, 6, 12) {
 	case 0:
 		return r.Range(1, 6)
 	case 1:
@@ -590,32 +620,28 @@ func (g *gen) anyTo() int {
 		}
 		return 6
 	default:
-		return 5
+		return []int{1, 2, 5}[r.Intn(3)] // accounts that can act on the EVM side later
 	}
 }
 
-func (g *gen) mappedDenom(coin int) *denomRef { // coin: 1 coin-born, 0 erc-born, -1 any
-	var c []denomRef
+func (g *gen) pickMap(coin int) (shadowMap, bool) { // coin: 1 coin-born, 0 erc-born, -1 any
+	var c []shadowMap
 	for _, m := range g.maps {
 		if coin < 0 || (coin == 1) == m.coin {
-			c = append(c, m.d)
+			c = append(c, m)
 		}
 	}
-	if len(c) == 0 || g.r.Chance(1, 12) {
-		if g.r.Chance(1, 2) {
-			return &denomRef{K: "c", N: g.r.Intn(4)}
-		}
-		return &denomRef{K: "e", N: g.r.Intn(g.ntok + 1)}
+	if len(c) == 0 {
+		return shadowMap{}, false
 	}
-	d := c[g.r.Intn(len(c))]
-	return &d
+	return c[g.r.Intn(len(c))], true
 }
 
-func (g *gen) mappedTok() int {
-	if len(g.maps) == 0 || g.r.Chance(1, 12) {
-		return g.r.Intn(g.ntok + 2)
+func (g *gen) randDenom() *denomRef {
+	if g.r.Chance(1, 2) {
+		return &denomRef{K: "c", N: g.r.Intn(4)}
 	}
-	return g.maps[g.r.Intn(len(g.maps))].tok
+	return &denomRef{K: "e", N: g.r.Intn(g.ntok + 1)}
 }
 
 func (g *gen) isMappedTok(t int) bool {
@@ -636,14 +662,45 @@ func (g *gen) isMappedDen(d denomRef) bool {
 	return false
 }
 
-// evmSide decorates an EVM-side op with caller / frame / malformed variants.
+func (g *gen) mapOfDen(d denomRef) (shadowMap, bool) {
+	for _, m := range g.maps {
+		if m.d == d {
+			return m, true
+		}
+	}
+	return shadowMap{}, false
+}
+
+func (g *gen) mapOfTok(t int) (shadowMap, bool) {
+	for _, m := range g.maps {
+		if m.tok == t {
+			return m, true
+		}
+	}
+	return shadowMap{}, false
+}
+
+// holder picks, among cands, an account with a positive shadow balance (bal = its balance), else any of cands.
+func (g *gen) holder(cands []int, bal func(a int) int64) (int, int64) {
+	var have []int
+	for _, a := range cands {
+		if bal(a) > 0 {
+			have = append(have, a)
+		}
+	}
+	if len(have) > 0 && !g.r.Chance(1, 10) {
+		a := have[g.r.Intn(len(have))]
+		return a, bal(a)
+	}
+	a := cands[g.r.Intn(len(cands))]
+	return a, bal(a)
+}
+
+// evmSide decorates an EVM-side op: the forwarder (5) acts through a frame, EOAs act directly.
 func (g *gen) evmSide(op c06Op, precompileOp bool) c06Op {
 	r := g.r
-	if r.Chance(35, 100) {
-		op.A = 5
+	if op.A == 5 {
 		op.Frame = []string{"plain", "revert_top", "inner_revert", "swallow", "once_then_reverted"}[r.Pick(3, 2, 5, 3, 4)]
-	} else {
-		op.A = r.Range(1, 2)
 	}
 	if precompileOp {
 		op.Fmt = g.fmtTo()
@@ -657,14 +714,36 @@ func (g *gen) evmSide(op c06Op, precompileOp bool) c06Op {
 	return op
 }
 
+func feeCut(kind string, x int64) int64 {
+	if kind == "fee" {
+		return x - x*10/100
+	}
+	return x
+}
+
 func (g *gen) push(op c06Op) {
 	g.ops = append(g.ops, op)
-	// shadow bookkeeping (approximate: assumes well-formed ops succeed)
+	// shadow bookkeeping (approximate: assumes well-formed, funded ops succeed)
+	x, _ := strconv.ParseInt(op.X, 10, 64)
+	effective := !op.BadTo && op.Gas == 0 && (op.Frame == "" || op.Frame == "plain" || op.Frame == "swallow" || op.Frame == "once_then_reverted")
+	kindOf := func(t int) string {
+		if t >= 0 && t < len(g.kinds) {
+			return g.kinds[t]
+		}
+		return ""
+	}
 	switch op.K {
 	case "meta":
 		g.meta[op.D.N] = true
+	case "fund":
+		g.addB(*op.D, op.A, x)
 	case "deploy":
 		g.kinds = append(g.kinds, op.Kind)
+		sup := int64(1_000_000_000_000)
+		if op.Kind == "fee" {
+			sup = 1000
+		}
+		g.addE(g.ntok, op.A, sup)
 		g.ntok++
 	case "create_coin":
 		if op.D.K == "c" && g.meta[op.D.N] && !g.isMappedDen(*op.D) {
@@ -676,12 +755,38 @@ func (g *gen) push(op c06Op) {
 		if op.T < g.ntok && !g.isMappedTok(op.T) {
 			g.maps = append(g.maps, shadowMap{tok: op.T, d: denomRef{K: "e", N: op.T}, coin: false})
 		}
+	case "erc20_transfer":
+		if effective && x > 0 && kindOf(op.T) != "heavy" && kindOf(op.T) != "" && g.ebal(op.T, op.A) >= x {
+			g.addE(op.T, op.A, -x)
+			g.addE(op.T, op.To, feeCut(kindOf(op.T), x))
+		}
+	case "erc20_burn":
+		if effective && x > 0 && kindOf(op.T) == "minter" && g.ebal(op.T, op.A) >= x {
+			g.addE(op.T, op.A, -x)
+		}
+	case "convert", "send_to_evm":
+		if m, ok := g.mapOfDen(*op.D); ok && effective && x > 0 && g.bbal(*op.D, op.A) >= x && kindOf(m.tok) != "heavy" && op.To != 0 {
+			g.addB(*op.D, op.A, -x)
+			g.addE(m.tok, op.To, feeCut(kindOf(m.tok), x))
+		}
+	case "send_to_bank":
+		if m, ok := g.mapOfTok(op.T); ok && effective && x > 0 && g.ebal(op.T, op.A) >= x && kindOf(op.T) != "heavy" && op.To != 0 {
+			g.addE(op.T, op.A, -x)
+			g.addB(m.d, op.To, feeCut(kindOf(op.T), x))
+		}
+	case "bank_msg_send":
+		if effective && x > 0 && g.bbal(*op.D, op.A) >= x && op.To != 0 {
+			g.addB(*op.D, op.A, -x)
+			g.addB(*op.D, op.To, x)
+		}
 	}
 }
 
+var evmActors = []int{1, 2, 5}
+
 func (g *gen) randomOp() {
 	r := g.r
-	switch r.Pick(7, 8, 14, 17, 12, 6, 13, 4, 3, 2) {
+	switch r.Pick(6, 7, 15, 18, 15, 6, 13, 5, 3, 2) {
 	case 0: // create from coin
 		d := denomRef{K: "c", N: r.Intn(4)}
 		if r.Chance(1, 15) && g.ntok > 0 {
@@ -689,28 +794,53 @@ func (g *gen) randomOp() {
 		}
 		g.push(c06Op{K: "create_coin", A: r.Range(3, 4), D: &d})
 	case 1: // create from erc20
-		t := r.Intn(g.ntok + 1)
-		g.push(c06Op{K: "create_erc20", A: r.Range(3, 4), T: t})
-	case 2:
-		x := g.amount()
+		g.push(c06Op{K: "create_erc20", A: r.Range(3, 4), T: r.Intn(g.ntok + 1)})
+	case 2: // MsgConvertCoinToEvm
+		d := g.randDenom()
+		if m, ok := g.pickMap(-1); ok && !r.Chance(1, 12) {
+			d = &m.d
+		}
+		a, bal := g.holder([]int{3, 4}, func(a int) int64 { return g.bbal(*d, a) })
+		x := g.amount(bal)
 		if r.Chance(3, 100) {
 			x = "-" + strconv.Itoa(r.Range(1, 50))
 		}
-		g.push(c06Op{K: "convert", A: r.Range(3, 4), D: g.mappedDenom(-1), X: x, To: g.anyTo(), Fmt: "hex"})
-	case 3:
-		g.push(g.evmSide(c06Op{K: "send_to_bank", T: g.mappedTok(), X: g.amount(), To: g.anyTo()}, true))
-	case 4:
-		g.push(g.evmSide(c06Op{K: "send_to_evm", D: g.mappedDenom(-1), X: g.amount(), To: g.anyTo()}, true))
-	case 5:
-		g.push(g.evmSide(c06Op{K: "bank_msg_send", D: g.mappedDenom(-1), X: g.amount(), To: g.anyTo()}, true))
-	case 6:
-		to := g.anyTo()
-		if r.Chance(1, 3) {
-			to = 5 // keep the forwarder supplied with tokens
+		g.push(c06Op{K: "convert", A: a, D: d, X: x, To: g.anyTo(), Fmt: "hex"})
+	case 3: // sendToBank
+		t := r.Intn(g.ntok + 2)
+		if m, ok := g.pickMap(-1); ok && !r.Chance(1, 12) {
+			t = m.tok
 		}
-		g.push(g.evmSide(c06Op{K: "erc20_transfer", T: r.Intn(g.ntok + 1), X: g.amount(), To: to}, false))
-	case 7:
-		g.push(g.evmSide(c06Op{K: "erc20_burn", T: r.Intn(g.ntok + 1), X: g.amount()}, false))
+		a, bal := g.holder(evmActors, func(a int) int64 { return g.ebal(t, a) })
+		g.push(g.evmSide(c06Op{K: "send_to_bank", A: a, T: t, X: g.amount(bal), To: g.anyTo()}, true))
+	case 4: // sendToEvm
+		d := g.randDenom()
+		if m, ok := g.pickMap(r.Intn(2)); ok && !r.Chance(1, 12) {
+			d = &m.d
+		} else if m, ok := g.pickMap(-1); ok && !r.Chance(1, 12) {
+			d = &m.d
+		}
+		a, bal := g.holder(evmActors, func(a int) int64 { return g.bbal(*d, a) })
+		g.push(g.evmSide(c06Op{K: "send_to_evm", A: a, D: d, X: g.amount(bal), To: g.anyTo()}, true))
+	case 5: // bankMsgSend
+		d := g.randDenom()
+		if m, ok := g.pickMap(-1); ok && !r.Chance(1, 6) {
+			d = &m.d
+		}
+		a, bal := g.holder(evmActors, func(a int) int64 { return g.bbal(*d, a) })
+		g.push(g.evmSide(c06Op{K: "bank_msg_send", A: a, D: d, X: g.amount(bal), To: g.anyTo()}, true))
+	case 6: // ERC20 transfer by a user (incl. donations to the module, supplying the forwarder)
+		t := r.Intn(g.ntok + 1)
+		a, bal := g.holder(evmActors, func(a int) int64 { return g.ebal(t, a) })
+		to := g.anyTo()
+		g.push(g.evmSide(c06Op{K: "erc20_transfer", A: a, T: t, X: g.amount(bal), To: to}, false))
+	case 7: // ERC20 burn by a user
+		t := r.Intn(g.ntok + 1)
+		if m, ok := g.pickMap(1); ok && !r.Chance(1, 4) {
+			t = m.tok
+		}
+		a, bal := g.holder(evmActors, func(a int) int64 { return g.ebal(t, a) })
+		g.push(g.evmSide(c06Op{K: "erc20_burn", A: a, T: t, X: g.amount(bal)}, false))
 	case 8:
 		g.push(c06Op{K: "fund", A: r.Range(1, 6), D: &denomRef{K: "c", N: r.Intn(3)}, X: strconv.Itoa(r.Range(1, 500))})
 	case 9:
@@ -719,7 +849,7 @@ func (g *gen) randomOp() {
 }
 
 func genCase(r *Rng) []c06Op {
-	g := &gen{r: r, meta: map[int]bool{}}
+	g := &gen{r: r, meta: map[int]bool{}, bank: map[denomRef]map[int]int64{}, erc: map[int]map[int]int64{}}
 	nd := r.Range(2, 3)
 	for d := 0; d < nd; d++ {
 		g.push(c06Op{K: "meta", D: &denomRef{K: "c", N: d}})
@@ -729,7 +859,7 @@ func genCase(r *Rng) []c06Op {
 	}
 	for i, n := 0, r.Range(1, 3); i < n; i++ {
 		owner := r.Range(1, 2)
-		kind := []string{"std", "fee", "heavy"}[r.Pick(5, 5, 1)]
+		kind := []string{"std", "fee", "heavy"}[r.Pick(5, 6, 1)]
 		g.push(c06Op{K: "deploy", A: owner, Kind: kind})
 		// spread the token: other EOA, forwarder, a Cosmos account
 		for _, to := range []int{3 - owner, 5, 3} {
@@ -740,10 +870,10 @@ func genCase(r *Rng) []c06Op {
 	if r.Chance(4, 5) {
 		g.push(c06Op{K: "create_coin", A: 3, D: &denomRef{K: "c", N: r.Intn(nd)}})
 	}
-	if r.Chance(4, 5) {
+	if r.Chance(9, 10) {
 		g.push(c06Op{K: "create_erc20", A: 4, T: r.Intn(g.ntok)})
 	}
-	for i, n := 0, r.Range(10, 24); i < n; i++ {
+	for i, n := 0, r.Range(12, 26); i < n; i++ {
 		g.randomOp()
 	}
 	return g.ops
@@ -793,6 +923,9 @@ func openers() [][]c06Op {
 			{K: "fund", A: 5, D: c0, X: "1"},
 			{K: "erc20_transfer", A: 1, T: 0, X: "9", To: 0},
 			{K: "send_to_evm", A: 1, D: e0, X: "1", To: 6, Fmt: "hex"},
+			{K: "send_to_bank", A: 1, T: 0, X: "200", To: 2, Fmt: "hex"},
+			{K: "send_to_evm", A: 2, D: e0, X: "50", To: 6, Fmt: "bech32"},
+			{K: "send_to_evm", A: 2, D: e0, X: "30", To: 100, Fmt: "hex"},
 		}),
 		// standard and heavy ERC20-born mappings
 		cat(pre, []c06Op{
@@ -806,6 +939,9 @@ func openers() [][]c06Op {
 			{K: "send_to_bank", A: 5, T: 0, X: "150", To: 5, Fmt: "hex", Frame: "plain"},
 			{K: "send_to_evm", A: 5, D: e0, X: "100", To: 1, Fmt: "hex", Frame: "once_then_reverted"},
 			{K: "send_to_evm", A: 5, D: e0, X: "100", To: 1, Fmt: "hex", Frame: "revert_top"},
+			{K: "convert", A: 3, D: e0, X: "7", To: 0, Fmt: "hex"},
+			{K: "bank_msg_send", A: 5, D: e0, X: "30", To: 2, Fmt: "bech32", Frame: "plain"},
+			{K: "send_to_evm", A: 2, D: e0, X: "9", To: 0, Fmt: "hex"},
 			{K: "convert", A: 3, D: e0, X: "-5", To: 5, Fmt: "hex"},
 			{K: "convert", A: 3, D: e0, X: "100000", To: 5, Fmt: "hex"},
 		}),
@@ -813,7 +949,7 @@ func openers() [][]c06Op {
 }
 
 func TestC06(t *testing.T) {
-	cfg := LoadCfg(t, 36, 600)
+	cfg := LoadCfg(t, 70, 1500)
 	em := NewEmitter(t, cfg.Out)
 	defer em.Close()
 	run := func(ops []c06Op) {
